@@ -23,6 +23,7 @@ def group_join_(
     right: Observable[_TRight],
     left_duration_mapper: Callable[[_TLeft], Observable[Any]],
     right_duration_mapper: Callable[[_TRight], Observable[Any]],
+    complete_groups_with_right: bool = False,
 ) -> Callable[[Observable[_TLeft]], Observable[tuple[_TLeft, Observable[_TRight]]]]:
     """Correlates the elements of two sequences based on overlapping
     durations, and groups the results.
@@ -35,6 +36,10 @@ def group_join_(
         right_duration_mapper: A function to select the duration (expressed
             as an observable sequence) of each element of the right observable
             sequence, used to determine overlap.
+        complete_groups_with_right: When set, the groups that are still
+            open when the right sequence completes are completed at that
+            moment (used by window_toggle, where the right sequence is the
+            windowed source).
 
     Returns:
         An observable sequence that contains elements combined into a tuple
@@ -168,7 +173,22 @@ def group_join_(
 
                 observer.on_error(error)
 
-            group.add(right.subscribe(send_right, on_error_right, scheduler=scheduler))
+            def on_completed_right() -> None:
+                with left.lock:
+                    open_groups = list(left_map.values())
+                    left_map.clear()
+
+                for left_value in open_groups:
+                    left_value.on_completed()
+
+            group.add(
+                right.subscribe(
+                    send_right,
+                    on_error_right,
+                    on_completed_right if complete_groups_with_right else None,
+                    scheduler=scheduler,
+                )
+            )
             return rcd
 
         return Observable(subscribe)
